@@ -17,18 +17,23 @@ CLAIM = dict(
          'nearest in space on the uniform grid), points outside the box go to the boundary index, the three '
          'scalings are the stated affine maps followed by clipping. For every number type: scalar = '
          'per-dimension options, batch = map of singles, mismatching declared lengths => Err ValueError '
-         '(grid_prep_opts, and a/b/n of ind_to_poi, a/b of poi_scale / poi_to_ind). grid_flat: NoDup, length = '
+         '(grid_prep_opts; a/b/n of ind_to_poi; a/b of poi_scale; a/b/n of poi_to_ind for every dimension d: '
+         'poi_to_ind_rejects_n, poi_to_ind_rejects). The model of poi_to_ind is the repaired code (n goes through '
+         'grid_prep_opts(None, None, n, d, m), /repo bc9fc68); for the pinned variant (n prepared by grid_prep_opt alone) '
+         'the finding is machine-checked: it accepted every list n of length <> 1 when d = 1 '
+         '(poi_to_ind_pinned_accepts_n_d1, witness poi_to_ind_pinned_refuted) and agrees with the code on every '
+         'well-formed n (poi_to_ind_pinned_same). grid_flat: NoDup, length = '
          'product, rows = exactly the in-range multi-indices, row t = mixed-radix digits of t, first index fastest. '
          'cdf = #{x_i<=z}/m for every total preorder; at R monotone, right-continuous, 0/1 limits, jumps >= 1/m.',
     note='NOT proved: that binary64 evaluation stays inside the 1/2 margin of roundtrip_margin for a given box '
          '(no floating-point error analysis); this is enumerated on the implementation instead (every index of '
          'every grid with n<=24 quick / 64 thorough over a family of boxes, under the stated precondition that '
          'adjacent nodes differ by >= 2^10 ulp(max(|a|,|b|)); end points / in-box to 4 ulp). '
-         'n of poi_to_ind is prepared by grid_prep_opt without length validation: the model mirrors numpy '
-         'broadcasting (theorem C18_poi_to_ind_rejects_n_partial for d<>1; for d=1 a longer n is accepted — '
-         'C18_poi_to_ind_n_not_validated_d1 — reported as finding C18-poi_to_ind-n-length). '
-         'Modelled domain: options are None / Python scalar / 1-D list, n integral, batches non-empty and '
-         'rectangular, grid_flat mode sizes >= 1; linspace(1/m,1,m) of cdf_getter is modelled by its exact values k/m.',
+         'Modelled domain: options are None / Python scalar / 1-D list or ndarray (a TUPLE is not validated by '
+         'grid_prep_opts and is outside the model and outside the documented argument types), n integral, batches '
+         'non-empty and rectangular, grid_flat mode sizes >= 1; linspace(1/m,1,m) of cdf_getter is modelled by its '
+         'exact values k/m. A missing bound (a or b None) is a TypeError before n is looked at; the rejection theorems '
+         'for poi_to_ind say so (hypotheses a, b <> None, or: the call never succeeds).',
     technique='Coq proof (Reals: lra/nra/field, acos_cos; lists: induction) + exact model/implementation '
               'correspondence over Qc on dyadic inputs + exhaustive enumeration of the round trip on the implementation')
 TRUSTED = ['Coq 8.16.1 kernel + vm_compute (case evaluation only); Reals axioms of the standard library',
@@ -464,6 +469,57 @@ def correspondence(R, ctx):
         dist['cases'] += 1
         items.append(dict(coq=coq, impl=impl, input=inp))
     bad_all += C.exact_corr(R, 'malformed_and_mixed', HEADER, items, chunk=60, distribution=dist)
+
+    # ---- stream 3b: the malformed-n family of poi_to_ind (fix bc9fc68), systematic, error class exact ----------
+    items = []
+    dist = dict(single=0, batch=0, wrong_length=0, right_length=0, d1_longer_n=0, ndarray_n=0, errors=0, ok=0)
+    for d in [1, 2, 3, 4]:
+        for ln in [0, 1, 2, 3, 5]:
+            for kind in ['uni', 'cheb']:
+                for vec in [False, True]:
+                    for m in [None, 1, 3]:
+                        if ln == d and kind == 'cheb':
+                            continue      # a successful Chebyshev call needs the acos oracle: covered by stream 4
+                        if m == 3 and (vec or kind == 'cheb') and ln not in (d, 1, 3):
+                            continue
+                        nv = [rng.choice([2, 3, 5, 9]) for _ in range(ln)]
+                        av = [Fr(rng.randint(-8, 8), 2) for _ in range(d)]
+                        bv = [x + (n1 - 1) * Fr(2) ** rng.randint(-1, 2) for x, n1 in zip(av, (nv + [3] * d)[:d])]
+                        if not vec:
+                            av, bv = [av[0]] * d, [av[0] + 8] * d
+                        a_py = [float(x) for x in av] if vec else float(av[0])
+                        b_py = [float(x) for x in bv] if vec else float(bv[0])
+                        a_l, b_l = gopt(av if vec else av[0], ql), gopt(bv if vec else bv[0], ql)
+                        as_array = rng.random() < 0.3
+                        n_py = np.array(nv, dtype=int) if as_array else list(nv)
+                        rows = [[av[k] + (bv[k] - av[k]) * Fr(rng.randint(-2, 10), 8) for k in range(d)]
+                                for _ in range(m or 1)]
+                        if m is None:
+                            X = rows[0]
+                            Xf = [float(x) for x in X]
+                            impl = impl_z1(tn.poi_to_ind, Xf, a_py, b_py, n_py, kind)
+                            coq = f'shZ1 (poi_to_ind1 OQc Qc_floor idQ (q 0 1) {qlist(X)} {a_l} {b_l} {gopt(nv, C.zlit)} {kindlit(kind)})'
+                            inp = ['poi_to_ind-malformed', Xf, a_py, b_py, nv, kind]
+                            dist['single'] += 1
+                        else:
+                            Xf = [[float(x) for x in row] for row in rows]
+                            impl = impl_z2(tn.poi_to_ind, np.array(Xf), a_py, b_py, n_py, kind)
+                            coq = f'shZ2 (poi_to_ind OQc Qc_floor idQ (q 0 1) {C.nested(rows, ql)} {a_l} {b_l} {gopt(nv, C.zlit)} {kindlit(kind)})'
+                            inp = ['poi_to_ind-malformed-batch', Xf, a_py, b_py, nv, kind]
+                            dist['batch'] += 1
+                        if impl[0] == [0]:
+                            # a successful call is comparable only if its rounding decisions are safe
+                            ok = all(_p2i_safe(['', xr, a_py, b_py, nv, 'uni']) for xr in (Xf if m is not None else [Xf]))
+                            if not ok:
+                                continue
+                            dist['ok'] += 1
+                        else:
+                            dist['errors'] += 1
+                        dist['wrong_length' if ln != d else 'right_length'] += 1
+                        dist['d1_longer_n'] += int(d == 1 and ln != 1)
+                        dist['ndarray_n'] += int(as_array)
+                        items.append(dict(coq=coq, impl=impl, input=inp))
+    bad_all += C.exact_corr(R, 'poi_to_ind_malformed_n', HEADER, items, chunk=60, distribution=dist)
 
     # ---- stream 4: all nodes of all grids n <= nmax, uniform and Chebyshev, tolerance 4 ulp; indices exact -
     cases, meta = [], []
@@ -924,15 +980,18 @@ def search(R, ctx, deep, hints):
            ('poi_scale', ([.1], 0., [1., 2.])),
            ('poi_to_ind', ([.1, .2], [0., 0., 0.], 1., 4)), ('poi_to_ind', ([.1, .2], 0., [1.], 4)),
            ('poi_to_ind', ([.1, .2], 0., 1., [4, 4, 4])), ('poi_to_ind', ([.1, .2, .3], 0., 1., [5])),
-           ('poi_to_ind', ([[.1, .2], [.3, .4]], 0., 1., [4, 4, 4]))]
+           ('poi_to_ind', ([[.1, .2], [.3, .4]], 0., 1., [4, 4, 4])),
+           ('poi_to_ind', ([[.1], [.3]], 0., 1., [4, 4, 4])), ('poi_to_ind', ([.1], 0., 1., [])),
+           ('poi_to_ind', ([.1], [0.], [1.], [4, 5])), ('poi_to_ind', ([.1], 0., 1., np.array([4, 5, 6]))),
+           ('poi_to_ind', ([.1], 0., 1., [4, 5, 6], 'cheb')), ('poi_to_ind', ([[.1]], 0., 1., [4, 5, 6], 'cheb'))]
     for fn, args in rej:
         _run(tn, 'reject', (fn, list(args)), fails, cnt)
-    # the one place where the code does not validate: n of poi_to_ind when d = 1 (numpy broadcasting accepts it)
+    # the input of the (fixed) finding: n of poi_to_ind longer than the dimension d = 1 (bc9fc68)
     f = _run(tn, 'reject', ('poi_to_ind', [[.1], 0., 1., [4, 5, 6]]), [], cnt)
     if f:
         f['finding_key'] = 'C18-poi_to_ind-n-length'
-        f['what'] = 'poi_to_ind: a list n longer than the dimension d=1 is not rejected (n is prepared by grid_prep_opt ' \
-                    'without the length validation of grid_prep_opts)'
+        f['what'] = 'poi_to_ind: a list n longer than the dimension d=1 is not rejected (n must go through the length ' \
+                    'validation of grid_prep_opts; fix bc9fc68 reverted?)'
         fails.append(f)
     # 7. cdf
     for _ in range(200 if deep else 50):
